@@ -10,7 +10,10 @@ for line in open(os.path.join(VERIF, "properties.jsonl")):
     props[d["id"]] = d["anchors"]["files"]
 claimed = [c["property_id"] for c in json.load(open(os.path.join(VERIF, "MANIFEST.json")))["checks"]]
 jobs = []
+only = sys.argv[1:]  # optional substrings of the diff paths to run (e.g. C34/refactor_4)
 for diff in sorted(glob.glob(os.path.join(VERIF, "neutral", "C*", "refactor_*.diff"))):
+    if only and not any(o in diff for o in only):
+        continue
     files = set(re.findall(r"^\+\+\+ b/(\S+)", open(diff).read(), re.M))
     for p in claimed:
         if any(f == a or (a.endswith("/") and f.startswith(a)) for f in files for a in props[p]):
